@@ -129,8 +129,10 @@ def run_virtual(coro_factory, *, inline_executor: bool = True, grace: float = 0.
             result = loop.run_until_complete(coro_factory())
         except LogicalDeadlock as dead:
             result = dead
-        except Exception as exc:  # noqa: BLE001 - what the scenario raised is an observation for the caller's oracle
-            result = exc
+        except (KeyboardInterrupt, SystemExit):
+            raise
+        except BaseException as exc:  # noqa: BLE001 - what the scenario raised (CancelledError included) is an observation
+            result = exc              # for the caller's oracle; one defect must not end the run and hide the others
         return result, loop
     finally:
         try:
